@@ -43,6 +43,12 @@ def activateGen (box : Idx) (st : IState) (idx : Idx) : IState :=
   else
     Gen.commitOps.foldl (applyCommit idx (nbrsGen box st.active idx) (decide (idx ∈ st.cand))) st
 
+/-- one step of `System.simulate_fit` on the shadow structures, assembled from the generated statement list `Gen.simOps`;
+    the neighbours are computed from the shadow active set BEFORE the step (falling back to the live set when it is empty) -/
+def simStepGen (box : Idx) (live : List Idx) (st : IState) (idx : Idx) : IState :=
+  let act := if Gen.nbrActiveFallback && st.active.isEmpty then live else st.active
+  Gen.simOps.foldl (applyCommit idx (nbrsGen box act idx) (decide (idx ∈ st.cand))) st
+
 def runGen (box : Idx) (rs : List Idx) : IState := rs.foldl (activateGen box) IState.init
 
 end Amisc
